@@ -113,6 +113,9 @@ func c09Round(rep *Report, m *MultiFixture, round int, ts []c09Tunnel) int {
 			}
 			rep.Count("tunnels", 1)
 			rep.Count("action/"+tn.Action, 1)
+			if tn.Rank == 0 && round%5 == 0 {
+				rep.Sample(map[string]any{"round": round, "round_size": len(ts), "tunnel": tn, "packets_received": len(snap.Packets), "end": snap.OutEnd, "trace_tail": tail(snap.Log, 8)})
+			}
 			if ov {
 				overlap++
 			}
